@@ -117,6 +117,23 @@ CHECKS["C24"] = dict(
    note="Trusted: Coq kernel; extraction; the run-time recorder. Transfer functions, joins and comparisons are hypotheses (C21/C22). "
         "Region annotations/value sets and discrete sets at the AST level are covered by C23's check, not here.")
 
+CHECKS["C25"] = dict(
+   text="Machine-checked proof (Coq) over Model/Balance.v and the comparison tables regenerated from the source on every run "
+        "(operations.opposites, Balancer.comparison_info, Balancer._unsigned_comparison): the tables mean what the balancer uses them "
+        "for (C25_opposites, C25_comparison_info); for every width, constant and value the bound derived by _handle_comparison holds and "
+        "it never reports unsatisfiable for a true comparison (C25_handle_comparison), the implicit bound of _get_assumptions holds "
+        "(C25_assumption), a value between the bounds is in the bound interval read modulo 2^n (C25_in_bound), end to end for x op k and "
+        "k op x with all ten operators (C25_simple); the rewriting rules for ZeroExt, Extract (>=, >), left shift (guarded) and "
+        "strict-to-non-strict keep the constraint (C25_zeroext, C25_extract, C25_lshift, C25_nonstrict) and the unrepaired forms do not "
+        "(C25_*_refuted). Tie: translator for the tables; extracted model against the real Balancer on bounds, _reverse_comparison, "
+        "_nonstrict, _balance_zeroext. Search: fixed domain of ~27000 constraints (all shapes of the property text, plain and annotated "
+        "variables) with every assignment enumerated; failing inputs of the pinned tree (annotated variables only) are known findings "
+        "listed input by input in known/C25.txt.gz; random inputs on the clean sites. add/sub/and/concat/signext/If balancing, truism "
+        "unpacking and alignment are NOT modelled (search only).",
+   design="5/C25", technique="Coq proof of the comparison bookkeeping + table translator; correspondence by extraction; exhaustive fixed-domain search",
+   note="Trusted: Coq kernel; tools/py2coq.py; extraction. Four balancer defects repaired (extract, lshift, zeroext signed, strict moves); "
+        "unsoundness with interval-annotated operands (wrap-around of moved constants, VSA answers) remains as known findings.")
+
 CHECKS["C12"] = dict(
    text="Machine-checked proof (Coq) of the principle SolverComposite rests on, for every set of constraint groups: if the groups share no "
         "variable, the whole is satisfiable iff every group is (C12_sat, by gluing assignments), and the values an expression takes over "
